@@ -26,6 +26,22 @@ def run(chk, facts, tier):
     chk.rule('events-drained', 'handle_connection_events pops until the ring is empty: the loop condition is the try_pop call alone (no budget, no other test), so every queued event - including connection_closed - is delivered at the end of the connection event that queued it', floor=1)
     for fn in variants(facts, 'bluetoe::link_layer::connection_callbacks::handle_connection_events', chk):
         loops = [n for n in fn.body.walk() if n.k in ('WhileStmt', 'ForStmt', 'DoStmt') and any(c.cn == 'try_pop' for c in (n.child('cond').calls() if n.child('cond') is not None else []))]
+        # every pop site hands its event to the dispatch: the popped variable is the one whose event_type_ selects the call_ll_* callbacks in the body of that very loop
+        pops = fn.body.calls('try_pop')
+        lost = []
+        for pc in pops:
+            var = strip_casts(pc.args()[0]).n if pc.args() else None
+            lp = next((l for l in loops if any(x is pc for x in l.child('cond').calls())), None)
+            body = lp.child('body') if lp is not None else None
+            dispatched = body is not None and var is not None and any(cc.cn and cc.cn.startswith('call_ll_') and mentions(cc, var) for cc in body.calls())
+            if not dispatched:
+                lost.append((pc, var))
+        if pops and len(loops) >= 1:
+            chk.instance('events-drained', fn, '%d pop site(s), each popped event dispatched in the body of its loop' % len(pops), not lost,
+                         '' if not lost else 'the event popped into `%s` at line %d is not handed to any callback: it is consumed and lost (e.g. connection_closed following a connection_changed)' % (lost[0][1], lost[0][0].l),
+                         node=lost[0][0] if lost else None, key='dispatched')
+        if lost:
+            continue
         if not chk.require(len(loops) == 1, 'handle_connection_events: the loop around events_.try_pop() was not found (idiom not recognised)'):
             continue
         c = strip_casts(loops[0].child('cond'))
